@@ -142,11 +142,29 @@ fn rand_char(rng: &mut Rng, class: usize) -> char {
     }
 }
 
+/// tokens that charset-sniffing or "helpful" clean-up code is known to treat specially
+pub const NOTABLE: [&str; 26] = [
+    "\u{FEFF}", "\u{00EF}\u{00BB}\u{00BF}", "\u{00FE}\u{00FF}", "\u{00FF}\u{00FE}", "\u{FFFE}", "\u{FFFD}", "\u{0}", "\u{7f}", "\u{80}", "\u{9f}", "\u{a0}", "\u{ad}",
+    "\u{ff}", "\u{100}", "\u{d7ff}", "\u{e000}", "\u{10000}", "\u{10ffff}", "+/v8", "\u{2028}", "\u{1e}\u{4}", "[)>\u{1e}05\u{1d}", "\u{c3}\u{a9}", "\r\n", "\u{b5}", "\u{3bc}",
+];
+
 pub fn gen_string(rng: &mut Rng) -> String {
     let n = if rng.chance(1, 10) { rng.below(300) } else { rng.below(30) };
     let k = rng.range(1, 3);
     let classes: Vec<usize> = (0..k).map(|_| rng.below(8)).collect();
-    (0..n).map(|_| { let cl = *rng.pick(&classes); rand_char(rng, cl) }).collect()
+    let mut s: String = (0..n).map(|_| { let cl = *rng.pick(&classes); rand_char(rng, cl) }).collect();
+    if rng.chance(1, 5) {
+        let t = *rng.pick(&NOTABLE);
+        match rng.below(4) {
+            0 | 1 => s.insert_str(0, t),
+            2 => s.push_str(t),
+            _ => {
+                let mid = s.char_indices().map(|x| x.0).nth(s.chars().count() / 2).unwrap_or(0);
+                s.insert_str(mid, t);
+            }
+        }
+    }
+    s
 }
 
 pub fn gen_macro_string(rng: &mut Rng) -> String {
@@ -178,6 +196,18 @@ pub fn run(ctx: &mut Ctx) {
     }
     if ctx.is_thorough() {
         ctx.exhaustive.insert("all_one_scalar_strings".into(), true);
+    }
+    // notable tokens: alone, in pairs, and around plain text, with and without the macro envelope
+    let mut item = 0usize;
+    for a in NOTABLE.iter() {
+        for b in NOTABLE.iter().chain(["", "abc", "A"].iter()) {
+            if ctx.mine(item) {
+                for s in [format!("{}{}", a, b), format!("{}{}", b, a), format!("x{}{}", a, b), format!("[)>\u{1e}05\u{1d}{}{}\u{1e}\u{4}", a, b), format!("[)>\u{1e}06\u{1d}{}{}\u{1e}\u{4}", b, a)] {
+                    eval(ctx, &s, true, "notable_tokens");
+                }
+            }
+            item += 1;
+        }
     }
     let n = ctx.budget(200_000, 20_000_000);
     for i in 0..n {
